@@ -104,6 +104,18 @@ class PostRecorder:
             return httpx.Response(302, json={"data": {}}, request=req)
         if self.mode == "non-json":
             return httpx.Response(200, text="<html>not json</html>", request=req)
+        if self.mode == "non-json-latin1":
+            return httpx.Response(200, content="<html>Erreur interne du café</html>".encode("latin-1"), headers={"content-type": "text/html; charset=iso-8859-1"}, request=req)
+        if self.mode == "non-json-binary":
+            return httpx.Response(200, content=b"\x1f\x8b\x08\x00\xff\xfe\x00binary", request=req)
+        if self.mode == "empty-body":
+            return httpx.Response(200, content=b"", request=req)
+        if self.mode == "truncated-json":
+            return httpx.Response(200, content=b'{"data": {"__schema": {"types": [', headers={"content-type": "application/json"}, request=req)
+        if self.mode == "json-string":
+            return httpx.Response(200, json="introspection is disabled", request=req)
+        if self.mode == "json-number":
+            return httpx.Response(200, json=7, request=req)
         if self.mode == "json-array":
             return httpx.Response(200, json=[1, 2], request=req)
         if self.mode == "json-null":
@@ -127,7 +139,7 @@ class PostRecorder:
         raise KeyError(self.mode)
 
 
-FAILURE_MODES = ["valid-body-status-300", "valid-body-status-302", "valid-body-status-304", "valid-body-status-404", "valid-body-status-500", "status-500", "status-404", "status-302", "non-json", "json-array", "json-null", "no-data-key", "errors", "errors-with-data", "data-null", "data-list",
+FAILURE_MODES = ["valid-body-status-300", "valid-body-status-302", "valid-body-status-304", "valid-body-status-404", "valid-body-status-500", "status-500", "status-404", "status-302", "non-json", "non-json-latin1", "non-json-binary", "empty-body", "truncated-json", "json-string", "json-number", "json-array", "json-null", "no-data-key", "errors", "errors-with-data", "data-null", "data-list",
                  "data-empty-object", "data-schema-null", "data-schema-garbage"]
 # urls that are wrong as urls (they never reach the network); an empty url is a configuration error, unresolvable hosts are not url errors
 BAD_URLS = ["not a url", "htp:/x", "://missing-scheme", "example.test/graphql", "http://[::1", "ftp://example.test/graphql"]
